@@ -13,6 +13,7 @@ mod judge;
 mod progs;
 mod props;
 mod refmodel;
+mod verdict;
 
 use engine::{DbgShare, DriveOpts, Property, Tier};
 use progs::PP;
@@ -64,6 +65,10 @@ macro_rules! dispatch {
             }
             "C17" => {
                 let $p = PP(props::c17::C17);
+                $body
+            }
+            "C18" => {
+                let $p = props::c18::C18;
                 $body
             }
             other => {
